@@ -82,6 +82,14 @@ class ErrFact(Exception):
     pass
 
 
+class ErrInstB(BaseException):
+    """Variant (prog["errbase"]): the configured errors derive from BaseException directly."""
+
+
+class ErrFactB(BaseException):
+    pass
+
+
 class Susp:
     """Awaitable that suspends the coroutine once."""
 
@@ -233,12 +241,12 @@ class Runtime:
         for c, inst in self.err_inst.items():
             if exc is inst:
                 return ("ErrInst", c)
-        if isinstance(exc, ErrInst):
+        if isinstance(exc, (ErrInst, ErrInstB)):
             return ("ErrInstCopy", getattr(exc, "c", -1))
         for c, last in self.last_fact.items():
             if exc is last:
                 return ("ErrFact", c)
-        if isinstance(exc, ErrFact):
+        if isinstance(exc, (ErrFact, ErrFactB)):
             return ("ErrFactOther", getattr(exc, "c", -1))
         for c, k in self.err_class.items():
             if type(exc) is k:
@@ -591,7 +599,7 @@ class Runtime:
             _h.emit("errf.out", c, o, a, v, cls)
             raise
         if con["err"] == "factory":
-            exc = ErrFact("fact{}".format(c))
+            exc = (ErrFactB if _h.prog.get("errbase") else ErrFact)("fact{}".format(c))
             exc.c = c  # type: ignore
             _h.last_fact[c] = exc
             _h.emit("errf.out", c, o, a, 1, "ret")
